@@ -237,6 +237,13 @@ func (w *responseWriter) writeHeader(status int) error {
 		if strings.HasPrefix(k, http.TrailerPrefix) {
 			continue
 		}
+		// Per RFC 9114, Section 4.2, connection-specific header fields must not be sent
+		// (a peer treats a message containing them as malformed).
+		if strings.EqualFold(k, "connection") || strings.EqualFold(k, "proxy-connection") ||
+			strings.EqualFold(k, "transfer-encoding") || strings.EqualFold(k, "upgrade") ||
+			strings.EqualFold(k, "keep-alive") {
+			continue
+		}
 		for index := range v {
 			name := strings.ToLower(k)
 			value := v[index]
